@@ -226,7 +226,12 @@ def run_generator(c):
     elif kind == "Configuration":
         deg = c["degree"]
         n = len(deg)
-        M = as_dense(Network.Configuration(deg if c["seed"] % 2 else np.array(deg)))
+        try:
+            M = as_dense(Network.Configuration(deg if c["seed"] % 2 else np.array(deg)))
+        except Exception:                                          # noqa
+            if sum(deg) % 2 == 0:
+                raise
+            return fails, False         # a sequence with an odd sum has no realisation: refusing it is fine
         ns = not_simple(M, n)
         if ns:
             fails.append(("Configuration/simple", ns))
@@ -652,6 +657,10 @@ def make_cases(tier, seed):
     for n, d in ((8, 3), (10, 4), (6, 5), (20, 3)):
         for _ in range(S):
             cases.append({"kind": "Configuration", "degree": [d] * n, "seed": sd()})
+    # sequences with an odd sum (no graph has them): refused, or answered with a graph that still never exceeds a request
+    for deg in ([3] * 5, [4, 2, 2, 1, 1, 1], [5] + [2] * 20, [1, 1, 1], [3, 2, 2, 2, 2]):
+        for _ in range(3 * S):
+            cases.append({"kind": "Configuration", "degree": list(deg), "seed": sd()})
     for n in (range(3, 10) if quick else range(3, 16)):
         for k in range(1, (n - 1) // 2 + 1):
             for p in (0, 0.2, 1):
